@@ -62,7 +62,15 @@ def entry(draw):
                 key = cand.name if isinstance(cand, A.Param) else int(cand.text[1:])
                 if key not in [(x.name if isinstance(x, A.Param) else int(x.text[1:])) for x in pool]:
                     pool.append(cand)
-        if len(pool) >= 3 and draw(st.integers(0, 3)) > 0:
+        if len(pool) >= 2 and draw(st.integers(0, 3)) == 0:
+            # a non-linear polynomial with float coefficients: c1*s0**2*s1 + c2*s0*s1 + c3*s0 (evaluation order matters at the last bit)
+            cs = [A.Operand("", A.Num("float", draw(st.sampled_from(["0.3", "0.7", "0.2", "1.1", "0.9", "2.3", "0.01"])))) for _ in range(3)]
+            s0, s1 = A.Operand("", pool[0]), A.Operand("", pool[1])
+            two = A.Operand("", A.Num("int", draw(st.sampled_from(["2", "3"]))))
+            poly = A.Flat([cs[0], s0, two, s1, cs[1], s0, s1, cs[2], s0], ["*", "**", "*", "+", "*", "*", "+", "*"])
+            kw = [["k", A.Flat([cs[1], s1, two, s0, cs[2], s1, s0], ["*", "**", "*", "-", "*", "*"])]] if draw(st.booleans()) else []
+            sc.items.append(A.Stmt("Poly", A.Args([poly], kw, False), [S.F1(A.Num("int", "0"))], "", ""))
+        elif len(pool) >= 3 and draw(st.integers(0, 3)) > 0:
             # several symbols in a nested expression: (s0 + s1)*s2 - s3, s0*s1 + s2*s3 ...
             sy = [A.Operand("", x) for x in pool[:4]]
             last = sy[3] if len(sy) > 3 else sy[0]
